@@ -38,6 +38,29 @@ type Env struct {
 	Sites   map[int]int
 	// SyncOps counts synchronisation operations executed through mcsync.
 	SyncOps int
+	// Depth is the current call depth of instrumented functions.
+	Depth int
+}
+
+// DepthLimit is the call depth of instrumented functions beyond which an execution is declared divergent
+// (unbounded recursion), long before the goroutine stack overflows.
+const DepthLimit = 4000
+
+// Enter is called at the entry of every instrumented function.
+func Enter(site int) {
+	e := Cur
+	e.Depth++
+	if e.Depth > DepthLimit && e.Horizon > 0 {
+		e.Depth = 0
+		panic(&HorizonError{Site: site, Steps: -1})
+	}
+}
+
+// Leave is deferred by every instrumented function.
+func Leave() {
+	if Cur.Depth > 0 {
+		Cur.Depth--
+	}
 }
 
 // Cur is the environment instrumented code reports to. Never nil.
@@ -56,6 +79,9 @@ type HorizonError struct {
 }
 
 func (h *HorizonError) Error() string {
+	if h.Steps < 0 {
+		return fmt.Sprintf("mcrt: call depth limit exceeded (unbounded recursion) at site %d", h.Site)
+	}
 	return fmt.Sprintf("mcrt: step horizon exceeded (%d map iterations), last site %d", h.Steps, h.Site)
 }
 
